@@ -95,7 +95,8 @@ func makeHyperslab(slice [][]int, dims []int) (offset, stride, count, block []ui
 }
 
 func sliceSize(slice []int, size int) int {
-	return m.MaxInt(0, (m.MinInt(size, slice[1])-m.MinInt(size, slice[0]))) / slice[2]
+	// number of elements start, start+step, ... below min(stop, size): round up
+	return (m.MaxInt(0, (m.MinInt(size, slice[1])-m.MinInt(size, slice[0]))) + slice[2] - 1) / slice[2]
 }
 
 func openWriteOrCreate(fn string, createIfNotExist bool) (*hdf5.File, error) {
